@@ -584,7 +584,16 @@ def values_eq(eng, a, b):
         return a == b
     if isinstance(a, Tok) or isinstance(b, Tok):
         if isinstance(a, Tok) and isinstance(b, Tok) and a.kind == b.kind:
+            if a.val is b.val:
+                return True
+            if a.kind == 'float':
+                raise Unsupported('comparison of two formatted floats')
             return values_eq(eng, a.val, b.val)
+        t, o = (a, b) if isinstance(a, Tok) else (b, a)
+        if isinstance(o, int):
+            from .strings import tok_excludes
+            if tok_excludes(t, o):
+                return False
         raise Unsupported('comparison with opaque token %r %r' % (a, b))
     if is_sym(a) or is_sym(b):
         if z3.is_bool(a) or z3.is_bool(b) or isinstance(a, bool) or isinstance(b, bool):
@@ -1002,8 +1011,35 @@ def format_arguments(eng, args):
         elif c < 0x80:
             out += items[i + 1:i + 1 + c]
             i += 1 + c
+        elif c & 0xf0 == 0xc0:
+            # placeholder with options: bit0 flags(u32), bit1 width(u16), bit2 precision(u16), bit3 explicit argument index(u16)
+            j = i + 1
+            flags = width = prec = None
+            if c & 1:
+                flags = items[j:j + 4]
+                j += 4
+            if c & 2:
+                width = items[j] | (items[j + 1] << 8)
+                j += 2
+            if c & 4:
+                prec = items[j] | (items[j + 1] << 8)
+                j += 2
+            if c & 8:
+                ai = items[j] | (items[j + 1] << 8)
+                j += 2
+            if ai >= len(argv):
+                raise Unsupported('format template has more placeholders than arguments')
+            fa1 = argv[ai]
+            ai += 1
+            v = deref_all(fa1.f[1])
+            if isinstance(v, float) or (isinstance(v, Opaque) and v.ty == 'f64') or prec is not None:
+                out.append(Tok('float', (v, prec)))
+            elif width is None:
+                out += display_items(eng, fa1.f[1], debug=(fa1.f[0] == 'debug'))
+            else:
+                out.append(Tok('fmt', (v, width)))
+            i = j
         else:
-            # placeholder with explicit options (width / precision / index): opaque
             return [Tok('fmt', (tuple(items), tuple(argv)))]
     return out
 
